@@ -64,9 +64,17 @@ Fixpoint body_scan (c : scfg) (s : str) : option str :=
 (* (W/)? DQ BODY DQ at the head of s: (weak?, body) *)
 Definition tag_at (c : scfg) (s : str) : option (bool * str) :=
   match s with
-  | 87 :: 47 :: 34 :: r => option_map (fun b => (true, b)) (body_scan c r)
-  | 34 :: r => option_map (fun b => (false, b)) (body_scan c r)
-  | _ => None
+  | x :: r =>
+      if x =? DQ then option_map (pair false) (body_scan c r)
+      else if x =? 87 then                                    (* W *)
+        match r with
+        | y :: z :: r' =>
+            if (y =? 47) && (z =? DQ) then option_map (pair true) (body_scan c r')   (* W/DQ *)
+            else None
+        | _ => None
+        end
+      else None
+  | [] => None
   end.
 
 (* number of characters of (W/)? DQ BODY DQ *)
